@@ -14,7 +14,7 @@ from mcx.ref import exmap as xm
 from mcx.seams import owned_random
 
 SCALES = (1.0, 0.5, 0.25, 1.5, 2.0)
-PLACES = ('near', 'between', 'far', 'neartie')
+PLACES = ('near', 'between', 'far', 'neartie', 'onanchor')
 TOL = 1e-9
 
 
